@@ -380,6 +380,17 @@ impl UntypedProgram {
             // they occur in the source code
             sorted_const_defs.sort_by_key(|(_name, const_def)| const_def.meta);
             for (const_name, const_def) in sorted_const_defs {
+                // the declared type of a constant can be an unknown name
+                let const_def = &match const_def.ty.as_concrete_type(&top_level_defs) {
+                    Ok(ty) => ConstDef {
+                        ty,
+                        ..const_def.clone()
+                    },
+                    Err(e) => {
+                        errors.extend(e);
+                        continue;
+                    }
+                };
                 fn check_const_expr(
                     value: &ConstExpr,
                     const_def: &ConstDef,
